@@ -783,6 +783,37 @@ def _named_temp(*a: Any, **k: Any) -> Any:
 _tempfile_facade.NamedTemporaryFile = _named_temp  # type: ignore
 
 
+def _make_prep_facade() -> Any:
+    """pysasl.prep with saslprep() exact on ASCII symbolic text: ASCII is mapped to itself, and exactly the ASCII
+    control characters (RFC 3454 C.2.1: U+0000-001F, U+007F) are prohibited (difftest compares this with the real
+    function on every ASCII string of length <= 2); symbolic text that may be non-ASCII is unsupported"""
+    import pysasl.prep as real
+    fac = types.ModuleType('pysasl.prep')
+    fac.__dict__.update(vars(real))
+
+    def saslprep(source: Any, *a: Any, **k: Any) -> Any:
+        if not is_sym(source):
+            return real.saslprep(source, *a, **k)
+        for c in source.items:
+            if is_sym(c):
+                if bool(c > 0x7f):
+                    raise Unsupported('saslprep of symbolic non-ASCII text')
+                if bool(c <= 0x1f) or bool(c == 0x7f):
+                    raise ValueError(source)
+            elif c > 0x7f:
+                if source.is_concrete():
+                    return real.saslprep(source.lower_concrete(), *a, **k)
+                raise Unsupported('saslprep of partly symbolic non-ASCII text')
+            elif c <= 0x1f or c == 0x7f:
+                raise ValueError(source)
+        return source
+    fac.saslprep = saslprep  # type: ignore
+    return fac
+
+
+_prep_facade: list = [None]
+
+
 def _open(*a: Any, **k: Any) -> Any:
     h = FS_HOOK[0]
     if h is not None:
@@ -816,6 +847,10 @@ def _import(name: str, globals: Any = None, locals: Any = None,
             return _asyncio_facade
         if name == 'tempfile':
             return _tempfile_facade
+        if name == 'pysasl.prep' and fromlist:
+            if _prep_facade[0] is None:
+                _prep_facade[0] = _make_prep_facade()
+            return _prep_facade[0]
         if name == 'os.path':
             return _os_facade if not fromlist else _ospath_facade
     return builtins.__import__(name, globals, locals, fromlist, level)
@@ -904,10 +939,21 @@ def _h_method(obj: Any, name: str, *args: Any, **kw: Any) -> Any:
     return getattr(obj, name)(*args, **kw)
 
 
+def _const_hash(x: Any) -> bool:
+    """x is a symbolic value hashing to the engine's constant (not a concrete-valued one with its real hash)"""
+    if not is_sym(x):
+        return False
+    try:
+        return hash(x) == 7919
+    except Unsupported:
+        return False
+
+
 def _all_sym_keys(d: Any) -> bool:
-    # containers whose keys are all Sym objects (constant hash) work natively
+    # containers whose keys are all constant-hash Sym objects work natively
     for k in d:
-        return is_sym(k)
+        if not _const_hash(k):
+            return False
     return True
 
 
@@ -935,7 +981,7 @@ def _h_in(x: Any, container: Any) -> Any:
         if not container:
             return False
         if is_sym(x):
-            if _all_sym_keys(container):
+            if _const_hash(x) and _all_sym_keys(container):
                 return x in container  # constant-hash members: native probe forks on ==
             return _scan_contains(container, x)
         if _all_sym_keys(container) and isinstance(x, (int, bytes, str)):
@@ -1070,9 +1116,13 @@ class _Loader(importlib.machinery.SourceFileLoader):
         super().exec_module(module)
 
 
+# third-party modules that sit between the wire and pymap and see client bytes: instrumented like pymap itself
+EXTRA_INSTRUMENTED = ('pysasl.mechanism.plain', 'pysasl.mechanism.login')
+
+
 class _Finder(importlib.abc.MetaPathFinder):
     def find_spec(self, fullname: str, path: Any, target: Any = None) -> Any:
-        if fullname != 'pymap' and not fullname.startswith('pymap.'):
+        if fullname != 'pymap' and not fullname.startswith('pymap.') and fullname not in EXTRA_INSTRUMENTED:
             return None
         spec = importlib.machinery.PathFinder.find_spec(fullname, path)
         if spec is None or not isinstance(
